@@ -379,6 +379,22 @@ func (c *Ctx) lockOrderRules(prefix string, scope func(fn *ssa.Function) bool, b
 							bl = h
 						}
 					}
+					// any other lock of the Broker's own package held around user code is the same
+					// hazard one level down: user code that calls back into the Broker meets a registry
+					// call that holds Broker.lock and waits for that lock (graphMap's, say) — an order
+					// inversion that leaves the Broker locked for good
+					if bl == "" && !control && PkgPathOf(f) == PkgRoot {
+						var hs []string
+						for h := range held {
+							if strings.HasPrefix(h, "eventlogger.") && !strings.HasPrefix(h, "eventlogger.Event.") && !strings.HasPrefix(h, "eventlogger.FileSink.") {
+								hs = append(hs, h)
+							}
+						}
+						sort.Strings(hs)
+						if len(hs) > 0 {
+							bl = hs[0]
+						}
+					}
 					if bl != "" {
 						wit := append([]string{fmt.Sprintf("%s invokes %s at %s while %s (mode %c) may be held:", p.ShortFn(f), name, p.InstrPos(in), bl, held[bl])}, full.WhyChain(f, bl)...)
 						if control {
